@@ -112,6 +112,7 @@ type c10Knobs struct {
 	lbracket bool // allow "[" inside atoms (valid ATOM-CHAR per RFC 3501)
 	donetag  bool // allow the tag "done" (any case) on ordinary commands
 	listlit  bool // allow the list-mailbox argument of LIST/LSUB to be sent as a literal
+	syskw    bool // keywords spelled like system flags without the backslash (Recent, Seen, ...)
 }
 
 type c10Gen struct {
@@ -486,6 +487,15 @@ func (g *c10Gen) flag() string {
 		f = c10Recase(f, mode, uint64(g.c.raw(1<<20)))
 	case 1:
 		f = g.atomVal()
+		if g.k.syskw && len(f)%2 == 0 {
+			// a keyword may be spelled like a system flag without its backslash: it is an
+			// ordinary atom (no new choice is drawn: the atom just made picks the word)
+			h := 0
+			for _, c := range []byte(f) {
+				h = h*31 + int(c)
+			}
+			f = c10Recase([]string{"Recent", "Seen", "Deleted", "Answered", "Flagged", "Draft"}[h%6], h/6%4, uint64(h))
+		}
 	default:
 		f = `\` + g.atomVal()
 		if strings.EqualFold(f, `\Recent`) {
